@@ -54,12 +54,12 @@ Definition sspec (cfg : config) : spec_kind sanswer sresult :=
 
 (* ---------- which cluster a request is addressed to, and whether it can be asked ---------- *)
 (* Some c: the host names cluster c and c has an endpoint that is healthy and not disabled *)
-Definition can_ask (cfg : config) (e : cluster -> list (bool * bool)) (ho : option host) : option cluster :=
+Definition can_ask (cfg : config) (e : epstate) (ho : option host) : option cluster :=
   match ho with
   | None => None
   | Some h => match cluster_of cfg h with
               | None => None
-              | Some c => if existsb (fun x => (fst x && negb (snd x))%bool) (e c) then Some c else None
+              | Some c => if existsb (fun x => (fst (snd x) && negb (snd (snd x)))%bool) (e_list e c) then Some c else None
               end
   end.
 
@@ -125,10 +125,11 @@ Definition check_req {A R} (P : spec_kind A R) (orc : cluster -> nat -> A) (can 
                end in
   ({| c_cnt := cnt'; c_hist := hist' |}, (own, unav, fresh, cached)).
 
-Record ck := { c_eps : cluster -> list (bool * bool); c_t : ckk tresult; c_s : ckk sresult }.
+Record ck := { c_eps : epstate;   (* the clusters' current server lists, from the operations issued *)
+               c_t : ckk tresult; c_s : ckk sresult }.
 
 Definition ck_init (cfg : config) : ck :=
-  {| c_eps := fun c => repeat (false, false) (ep_count cfg c);
+  {| c_eps := init_eps cfg;
      c_t := {| c_cnt := fun _ => O; c_hist := [] |};
      c_s := {| c_cnt := fun _ => O; c_hist := [] |} |}.
 
@@ -144,13 +145,10 @@ Definition check_step (cfg : config) (torc : cluster -> nat -> tanswer) (sorc : 
   | OAuthz ho a now, OutS r calls =>
       let (s', cl) := check_req (sspec cfg) sorc (can_ask cfg (c_eps s) ho) (c_s s) (sar_key a) now r calls in
       ({| c_eps := c_eps s; c_t := c_t s; c_s := s' |}, cl)
-  | OHealthy c i b, OutNone =>
-      ({| c_eps := upd_eps (c_eps s) c (set_nth i (fun e => (b, snd e)) (c_eps s c)); c_t := c_t s; c_s := c_s s |}, all_ok)
-  | ODisabled c i b, OutNone =>
-      ({| c_eps := upd_eps (c_eps s) c (set_nth i (fun e => (fst e, b)) (c_eps s c)); c_t := c_t s; c_s := c_s s |}, all_ok)
+  | OHealthy _ _, OutNone | ODisabled _ _, OutNone | OAddEp _ _, OutNone | ORemoveEp _ _, OutNone =>
+      ({| c_eps := ep_apply o (c_eps s); c_t := c_t s; c_s := c_s s |}, all_ok)
   | ORestart c, OutNone =>
-      ({| c_eps := upd_eps (c_eps s) c (repeat (false, false) (ep_count cfg c));
-          c_t := restart_k c (c_t s); c_s := restart_k c (c_s s) |}, all_ok)
+      ({| c_eps := ep_apply o (c_eps s); c_t := restart_k c (c_t s); c_s := restart_k c (c_s s) |}, all_ok)
   | OEvictT _ _, OutNone | OEvictS _ _, OutNone => (s, all_ok)
   | _, _ => (s, all_bad)
   end.
